@@ -72,7 +72,7 @@ func newDependencyBuildCmd(out io.Writer) *cobra.Command {
 				Debug:            settings.Debug,
 			}
 			if client.Verify {
-				man.Verify = downloader.VerifyIfPossible
+				man.Verify = downloader.VerifyAlways
 			}
 			err = man.Build()
 			if e, ok := err.(downloader.ErrRepoNotFound); ok {
